@@ -596,8 +596,12 @@ func (w *vWalker) fields(t reflect.Type, owner reflect.Type, prefix []int, sopts
 		}
 		ab := ""
 		for _, o := range opts {
+			// several allocbound options: outermost collection first, then its elements
 			if strings.HasPrefix(o, "allocbound=") {
-				ab = strings.TrimPrefix(o, "allocbound=")
+				if ab != "" {
+					ab += ","
+				}
+				ab += strings.TrimPrefix(o, "allocbound=")
 			}
 		}
 		fs := w.expand(f.Type, owner, ab, t.PkgPath())
@@ -1108,4 +1112,862 @@ func vEmitEnc(out *vOut, n *vNamed, tmpl vCodec, obj vCodec) {
 		kmin = vMinDepth(tmpl, e1, 64)
 	}
 	out.Line("(enc " + n.Name + " " + vTree(n, obj) + " #" + vHex(e1) + " #" + vHex(e2) + " " + vOutTerm(n, dec) + " " + strconv.FormatUint(kmin, 10) + ")")
+}
+
+// ------------------------------------------------------------------------------------------
+// C41: arbitrary bytes through protocol.Decode
+// ------------------------------------------------------------------------------------------
+
+// vLax writes a NON-canonical but (for the real decoder) equivalent encoding of v: wider integer
+// and header forms, str<->bin, nil for zero values, shuffled / explicit-zero struct fields,
+// struct-from-array, shuffled map entries, long fixed byte arrays.
+type vLax struct {
+	r    *vRand
+	p    int // probability (percent) of a non-canonical choice at each node
+	b    []byte
+	uses map[string]int
+}
+
+func (l *vLax) flip() bool { return l.r.Intn(100) < l.p }
+
+func (l *vLax) note(k string) { l.uses[k]++ }
+
+func (l *vLax) be(n uint64, k int) {
+	for i := k - 1; i >= 0; i-- {
+		l.b = append(l.b, byte(n>>(8*uint(i))))
+	}
+}
+
+func (l *vLax) uint(u uint64) {
+	if !l.flip() {
+		l.b = msgp.AppendUint64(l.b, u)
+		return
+	}
+	if u == 0 && l.r.Intn(4) == 0 {
+		l.note("nil-for-zero")
+		l.b = append(l.b, 0xc0)
+		return
+	}
+	// any unsigned or signed form wide enough
+	type form struct {
+		lead byte
+		k    int
+		max  uint64
+	}
+	forms := []form{{0xcc, 1, 1<<8 - 1}, {0xcd, 2, 1<<16 - 1}, {0xce, 4, 1<<32 - 1}, {0xcf, 8, ^uint64(0)},
+		{0xd0, 1, 1<<7 - 1}, {0xd1, 2, 1<<15 - 1}, {0xd2, 4, 1<<31 - 1}, {0xd3, 8, 1<<63 - 1}}
+	var ok []form
+	for _, f := range forms {
+		if u <= f.max {
+			ok = append(ok, f)
+		}
+	}
+	f := ok[l.r.Intn(len(ok))]
+	l.note("wide-int")
+	l.b = append(l.b, f.lead)
+	l.be(u, f.k)
+}
+
+func (l *vLax) int(i int64) {
+	if !l.flip() {
+		l.b = msgp.AppendInt64(l.b, i)
+		return
+	}
+	if i >= 0 {
+		l.uint(uint64(i))
+		return
+	}
+	type form struct {
+		lead byte
+		k    int
+		min  int64
+	}
+	forms := []form{{0xd0, 1, -1 << 7}, {0xd1, 2, -1 << 15}, {0xd2, 4, -1 << 31}, {0xd3, 8, -1 << 63}}
+	var ok []form
+	for _, f := range forms {
+		if i >= f.min {
+			ok = append(ok, f)
+		}
+	}
+	f := ok[l.r.Intn(len(ok))]
+	l.note("wide-int")
+	l.b = append(l.b, f.lead)
+	l.be(uint64(i), f.k)
+}
+
+func (l *vLax) hdr(kind string, n int) {
+	var fix, b8, b16, b32 byte
+	fixmax := -1
+	switch kind {
+	case "map":
+		fix, b16, b32, fixmax = 0x80, 0xde, 0xdf, 15
+	case "arr":
+		fix, b16, b32, fixmax = 0x90, 0xdc, 0xdd, 15
+	case "str":
+		fix, b8, b16, b32, fixmax = 0xa0, 0xd9, 0xda, 0xdb, 31
+	case "bin":
+		b8, b16, b32 = 0xc4, 0xc5, 0xc6
+	}
+	type form struct {
+		lead byte
+		k    int
+	}
+	var ok []form
+	if n <= fixmax {
+		ok = append(ok, form{fix + byte(n), 0})
+	}
+	if b8 != 0 && n < 1<<8 {
+		ok = append(ok, form{b8, 1})
+	}
+	if n < 1<<16 {
+		ok = append(ok, form{b16, 2})
+	}
+	ok = append(ok, form{b32, 4})
+	f := ok[0]
+	if l.flip() {
+		f = ok[l.r.Intn(len(ok))]
+		if f != ok[0] {
+			l.note("wide-header")
+		}
+	}
+	l.b = append(l.b, f.lead)
+	l.be(uint64(n), f.k)
+}
+
+func (l *vLax) raw(strForm bool, data []byte) {
+	if l.flip() {
+		strForm = !strForm
+		l.note("str-bin-swap")
+	}
+	if strForm {
+		l.hdr("str", len(data))
+	} else {
+		l.hdr("bin", len(data))
+	}
+	l.b = append(l.b, data...)
+}
+
+func (l *vLax) val(s *vSch, v reflect.Value) {
+	switch s.K {
+	case kUint:
+		l.uint(v.Uint())
+	case kInt:
+		l.int(v.Int())
+	case kBool:
+		if !v.Bool() && l.flip() {
+			l.note("nil-for-zero")
+			l.b = append(l.b, 0xc0)
+		} else {
+			l.b = msgp.AppendBool(l.b, v.Bool())
+		}
+	case kBytes:
+		if v.IsNil() {
+			l.b = append(l.b, 0xc0)
+		} else {
+			l.raw(false, v.Bytes())
+		}
+	case kString:
+		if v.Len() == 0 && l.flip() {
+			l.note("nil-for-zero")
+			l.b = append(l.b, 0xc0)
+		} else {
+			l.raw(true, []byte(v.String()))
+		}
+	case kFixBytes:
+		b := make([]byte, v.Len())
+		for i := range b {
+			b[i] = byte(v.Index(i).Uint())
+		}
+		if l.flip() {
+			switch l.r.Intn(3) {
+			case 0: // longer than the array: the excess is dropped
+				b = append(b, l.r.Bytes(1+l.r.Intn(5))...)
+				l.note("long-fixed-array")
+			case 1: // drop trailing zeros: the target is zero-filled
+				for len(b) > 0 && b[len(b)-1] == 0 {
+					b = b[:len(b)-1]
+				}
+				l.note("short-fixed-array")
+			}
+		}
+		l.raw(false, b)
+	case kArray:
+		n := v.Len()
+		l.hdr("arr", n)
+		for i := 0; i < n; i++ {
+			l.val(s.Elem, v.Index(i))
+		}
+	case kSlice:
+		if v.IsNil() {
+			l.b = append(l.b, 0xc0)
+			return
+		}
+		l.hdr("arr", v.Len())
+		for i := 0; i < v.Len(); i++ {
+			l.val(s.Elem, v.Index(i))
+		}
+	case kMap:
+		if v.IsNil() {
+			l.b = append(l.b, 0xc0)
+			return
+		}
+		keys := v.MapKeys()
+		sort.Slice(keys, func(i, j int) bool { return vKeyLess(s.Key, keys[i], keys[j]) })
+		if l.flip() {
+			l.note("map-order")
+			for i := len(keys) - 1; i > 0; i-- {
+				j := l.r.Intn(i + 1)
+				keys[i], keys[j] = keys[j], keys[i]
+			}
+		}
+		l.hdr("map", len(keys))
+		for _, k := range keys {
+			l.val(s.Key, k)
+			l.val(s.Val, v.MapIndex(k))
+		}
+	case kPtr:
+		if v.IsNil() {
+			l.b = append(l.b, 0xc0)
+		} else {
+			l.val(s.Elem, v.Elem())
+		}
+	case kRef:
+		if s.Ref.Special == "microalgos" {
+			l.uint(v.FieldByName("Raw").Uint())
+		} else {
+			l.val(s.Ref.Body, v)
+		}
+	case kStruct:
+		zero := func(f *vField) bool { return vIsZero(f.S, v.FieldByIndex(f.Index)) }
+		if l.flip() && l.r.Intn(3) == 0 {
+			// struct-from-array: declaration order, up to the last non-zero field (or further)
+			l.note("struct-from-array")
+			byDecl := append([]*vField(nil), s.Fld...)
+			sort.Slice(byDecl, func(i, j int) bool { return byDecl[i].Decl < byDecl[j].Decl })
+			last := 0
+			for i, f := range byDecl {
+				if !zero(f) {
+					last = i + 1
+				}
+			}
+			if last < len(byDecl) && l.r.Bool() {
+				last += l.r.Intn(len(byDecl) - last + 1)
+			}
+			l.hdr("arr", last)
+			for _, f := range byDecl[:last] {
+				l.val(f.S, v.FieldByIndex(f.Index))
+			}
+			return
+		}
+		var fs []*vField
+		explicit := l.flip()
+		for _, f := range s.Fld {
+			if f.OE && zero(f) {
+				if explicit && l.r.Bool() {
+					l.note("explicit-zero-field")
+					fs = append(fs, f)
+				}
+				continue
+			}
+			fs = append(fs, f)
+		}
+		if l.flip() {
+			l.note("field-order")
+			for i := len(fs) - 1; i > 0; i-- {
+				j := l.r.Intn(i + 1)
+				fs[i], fs[j] = fs[j], fs[i]
+			}
+		}
+		if len(fs) == 0 && l.flip() {
+			l.note("nil-for-zero")
+			l.b = append(l.b, 0xc0)
+			return
+		}
+		l.hdr("map", len(fs))
+		for _, f := range fs {
+			l.raw(true, []byte(f.Name))
+			l.val(f.S, v.FieldByIndex(f.Index))
+		}
+	}
+}
+
+// zero-ness as the generated MsgIsZero sees it (used only to build inputs)
+func vIsZero(s *vSch, v reflect.Value) bool {
+	switch s.K {
+	case kUint:
+		return v.Uint() == 0
+	case kInt:
+		return v.Int() == 0
+	case kBool:
+		return !v.Bool()
+	case kBytes, kString, kSlice, kMap:
+		return v.Len() == 0
+	case kFixBytes:
+		return v.IsZero()
+	case kArray:
+		for i := 0; i < v.Len(); i++ {
+			if !vIsZero(s.Elem, v.Index(i)) {
+				return false
+			}
+		}
+		return true
+	case kPtr:
+		return v.IsNil()
+	case kRef:
+		if s.Ref.Special == "microalgos" {
+			return v.FieldByName("Raw").Uint() == 0
+		}
+		return vIsZero(s.Ref.Body, v)
+	case kStruct:
+		for _, f := range s.Fld {
+			if !vIsZero(f.S, v.FieldByIndex(f.Index)) {
+				return false
+			}
+		}
+		return true
+	}
+	return false
+}
+
+// schema-less msgpack walk: offsets of every object header with its kind and header length
+type vObj struct {
+	off, hlen int
+	kind      byte // 'm' map 'a' array 's' str 'b' bin 'i' int/other scalar
+	n         int  // element count / byte length
+}
+
+func vScan(b []byte, off int, out *[]vObj, depth int) int {
+	if off >= len(b) || depth > 2000 {
+		return -1
+	}
+	lead := b[off]
+	rd := func(k int) (int, bool) {
+		if off+1+k > len(b) {
+			return 0, false
+		}
+		n := 0
+		for i := 0; i < k; i++ {
+			n = n<<8 | int(b[off+1+i])
+		}
+		return n, true
+	}
+	kind, hlen, n := byte('i'), 1, 0
+	switch {
+	case lead < 0x80 || lead >= 0xe0 || lead == 0xc0 || lead == 0xc2 || lead == 0xc3:
+	case lead < 0x90:
+		kind, n = 'm', int(lead&15)
+	case lead < 0xa0:
+		kind, n = 'a', int(lead&15)
+	case lead < 0xc0:
+		kind, n = 's', int(lead&31)
+	case lead == 0xc4 || lead == 0xc5 || lead == 0xc6 || lead == 0xd9 || lead == 0xda || lead == 0xdb:
+		k := map[byte]int{0xc4: 1, 0xc5: 2, 0xc6: 4, 0xd9: 1, 0xda: 2, 0xdb: 4}[lead]
+		v, ok := rd(k)
+		if !ok {
+			return -1
+		}
+		kind, hlen, n = 'b', 1+k, v
+		if lead >= 0xd9 {
+			kind = 's'
+		}
+	case lead == 0xdc || lead == 0xdd || lead == 0xde || lead == 0xdf:
+		k := 2
+		if lead == 0xdd || lead == 0xdf {
+			k = 4
+		}
+		v, ok := rd(k)
+		if !ok {
+			return -1
+		}
+		kind, hlen, n = 'a', 1+k, v
+		if lead >= 0xde {
+			kind = 'm'
+		}
+	case lead >= 0xcc && lead <= 0xd3:
+		hlen = 1 + []int{1, 2, 4, 8, 1, 2, 4, 8}[lead-0xcc]
+	default:
+		return -1
+	}
+	*out = append(*out, vObj{off, hlen, kind, n})
+	p := off + hlen
+	switch kind {
+	case 's', 'b':
+		p += n
+	case 'a':
+		for i := 0; i < n && p >= 0; i++ {
+			p = vScan(b, p, out, depth+1)
+		}
+	case 'm':
+		for i := 0; i < 2*n && p >= 0; i++ {
+			p = vScan(b, p, out, depth+1)
+		}
+	}
+	if p > len(b) {
+		return -1
+	}
+	return p
+}
+
+func vHeader(kind byte, n uint64, width int) []byte {
+	var lead byte
+	switch kind {
+	case 'm':
+		lead = map[int]byte{2: 0xde, 4: 0xdf}[width]
+	case 'a':
+		lead = map[int]byte{2: 0xdc, 4: 0xdd}[width]
+	case 's':
+		lead = map[int]byte{1: 0xd9, 2: 0xda, 4: 0xdb}[width]
+	case 'b':
+		lead = map[int]byte{1: 0xc4, 2: 0xc5, 4: 0xc6}[width]
+	}
+	o := []byte{lead}
+	for i := width - 1; i >= 0; i-- {
+		o = append(o, byte(n>>(8*uint(i))))
+	}
+	return o
+}
+
+func vSplice(b []byte, off, cut int, ins []byte) []byte {
+	o := make([]byte, 0, len(b)+len(ins))
+	o = append(o, b[:off]...)
+	o = append(o, ins...)
+	return append(o, b[off+cut:]...)
+}
+
+// byte-level mutations of one encoding
+func vMutations(r *vRand, e []byte, emit func(kind string, b []byte)) {
+	if len(e) == 0 {
+		return
+	}
+	// truncations
+	for _, k := range []int{0, 1, len(e) / 2, len(e) - 1, r.Intn(len(e)), r.Intn(len(e))} {
+		if k >= 0 && k < len(e) {
+			emit("truncate", e[:k])
+		}
+	}
+	// trailing garbage (ignored by protocol.Decode)
+	emit("trailing", append(append([]byte(nil), e...), r.Bytes(1+r.Intn(4))...))
+	// random byte substitutions / insertions / deletions
+	for i := 0; i < 6; i++ {
+		m := append([]byte(nil), e...)
+		for j := 0; j <= r.Intn(3); j++ {
+			m[r.Intn(len(m))] = byte(r.U64())
+		}
+		emit("bytes", m)
+	}
+	for i := 0; i < 3; i++ {
+		off := r.Intn(len(e))
+		emit("insert", vSplice(e, off, 0, r.Bytes(1+r.Intn(3))))
+		emit("delete", vSplice(e, off, 1+r.Intn(minInt(3, len(e)-off)), nil))
+	}
+	// structured surgery on headers
+	var objs []vObj
+	if vScan(e, 0, &objs, 0) < 0 || len(objs) == 0 {
+		return
+	}
+	for i := 0; i < 10; i++ {
+		o := objs[r.Intn(len(objs))]
+		switch o.kind {
+		case 'm', 'a', 's', 'b':
+			var n uint64
+			switch r.Intn(6) {
+			case 0:
+				n = uint64(o.n) + 1
+			case 1:
+				n = uint64(maxInt(o.n-1, 0))
+			case 2:
+				n = 0xffffffff
+			case 3:
+				n = 0x7fffffff
+			case 4:
+				n = uint64(o.n) // same length, wider header
+			default:
+				n = uint64(r.Intn(70000))
+			}
+			w := []int{2, 4}[r.Intn(2)]
+			if (o.kind == 's' || o.kind == 'b') && r.Intn(3) == 0 {
+				w = 1
+			}
+			if w == 1 && n > 255 {
+				n &= 255
+			}
+			if w == 2 && n > 65535 {
+				n &= 65535
+			}
+			emit("header-length", vSplice(e, o.off, o.hlen, vHeader(o.kind, n, w)))
+			if o.kind == 's' || o.kind == 'b' {
+				k := byte('s')
+				if o.kind == 's' {
+					k = 'b'
+				}
+				emit("str-bin", vSplice(e, o.off, o.hlen, vHeader(k, uint64(o.n), 4)))
+			}
+		case 'i':
+			// replace a scalar by nil / by another scalar form
+			switch r.Intn(3) {
+			case 0:
+				emit("nil-scalar", vSplice(e, o.off, o.hlen, []byte{0xc0}))
+			case 1:
+				emit("neg-scalar", vSplice(e, o.off, o.hlen, []byte{0xff}))
+			default:
+				emit("big-scalar", vSplice(e, o.off, o.hlen, []byte{0xcf, 0xff, 0xff, 0xff, 0xff, 0xff, 0xff, 0xff, 0xff}))
+			}
+		}
+	}
+	// replace a whole object by nil, duplicate / drop a key-value pair of the top-level map
+	for i := 0; i < 3; i++ {
+		j := r.Intn(len(objs))
+		end := vScan(e, objs[j].off, new([]vObj), 0)
+		if end > 0 {
+			emit("nil-object", vSplice(e, objs[j].off, end-objs[j].off, []byte{0xc0}))
+		}
+	}
+	if top := objs[0]; top.kind == 'm' && top.n > 0 && top.n < 15 && top.hlen == 1 {
+		// pairs of the top-level map
+		type pair struct{ a, b int }
+		var ps []pair
+		p := top.hlen
+		for i := 0; i < top.n && p > 0; i++ {
+			k := vScan(e, p, new([]vObj), 0)
+			if k < 0 {
+				break
+			}
+			v := vScan(e, k, new([]vObj), 0)
+			if v < 0 {
+				break
+			}
+			ps = append(ps, pair{p, v})
+			p = v
+		}
+		if len(ps) == top.n {
+			q := ps[r.Intn(len(ps))]
+			dup := append([]byte{e[0] + 1}, e[1:]...)
+			dup = append(dup, e[q.a:q.b]...)
+			emit("dup-key", dup)
+			drop := append([]byte{e[0] - 1}, e[1:q.a]...)
+			drop = append(drop, e[q.b:]...)
+			emit("drop-key", drop)
+			unk := append([]byte{e[0] + 1}, e[1:]...)
+			unk = append(unk, 0xa3, 'z', 'z', 'z', 0x01)
+			emit("unknown-key", unk)
+		}
+	}
+}
+
+func minInt(a, b int) int {
+	if a < b {
+		return a
+	}
+	return b
+}
+
+func maxInt(a, b int) int {
+	if a > b {
+		return a
+	}
+	return b
+}
+
+// all bounded collection nodes reachable in obj (value level), for bound / bound+1 instances
+type vSite struct {
+	s *vSch
+	v reflect.Value
+}
+
+func vSites(s *vSch, v reflect.Value, out *[]vSite) {
+	switch s.K {
+	case kBytes, kString:
+		if s.Bound >= 0 && v.CanSet() {
+			*out = append(*out, vSite{s, v})
+		}
+	case kSlice:
+		if s.Bound >= 0 && v.CanSet() {
+			*out = append(*out, vSite{s, v})
+		}
+		for i := 0; i < v.Len(); i++ {
+			vSites(s.Elem, v.Index(i), out)
+		}
+	case kArray:
+		for i := 0; i < v.Len(); i++ {
+			vSites(s.Elem, v.Index(i), out)
+		}
+	case kMap:
+		if s.Bound >= 0 && v.CanSet() {
+			*out = append(*out, vSite{s, v})
+		}
+	case kPtr:
+		if !v.IsNil() {
+			vSites(s.Elem, v.Elem(), out)
+		}
+	case kRef:
+		if s.Ref.Special == "" {
+			vSites(s.Ref.Body, v, out)
+		}
+	case kStruct:
+		for _, f := range s.Fld {
+			vSites(f.S, v.FieldByIndex(f.Index), out)
+		}
+	}
+}
+
+// fresh distinct map key number i
+func vSetKey(s *vSch, k reflect.Value, i int) bool {
+	switch s.K {
+	case kUint:
+		if uint64(i) > s.Max {
+			return false
+		}
+		k.SetUint(uint64(i))
+	case kInt:
+		k.SetInt(int64(i))
+	case kString:
+		k.SetString("k" + strconv.Itoa(i))
+	case kFixBytes:
+		if k.Len() < 4 {
+			return false
+		}
+		for j := 0; j < 4; j++ {
+			k.Index(j).SetUint(uint64(byte(i >> (8 * uint(j)))))
+		}
+	case kRef:
+		if s.Ref.Special != "" {
+			return false
+		}
+		return vSetKey(s.Ref.Body, k, i)
+	default:
+		return false
+	}
+	return true
+}
+
+// resize the collection at the site to n elements (copies of an existing element where there is one)
+func vResize(st vSite, n int, budget int) bool {
+	s, v := st.s, st.v
+	switch s.K {
+	case kBytes:
+		if n > budget {
+			return false
+		}
+		v.SetBytes(bytes.Repeat([]byte{0x61}, n))
+	case kString:
+		if n > budget {
+			return false
+		}
+		v.SetString(strings.Repeat("a", n))
+	case kSlice:
+		elemSize := 1
+		if v.Len() > 0 {
+			elemSize = len(protocol.EncodeReflect(v.Index(0).Interface())) + 1
+		}
+		if n*elemSize > budget {
+			return false
+		}
+		ns := reflect.MakeSlice(v.Type(), n, n)
+		if v.Len() > 0 {
+			for i := 0; i < n; i++ {
+				ns.Index(i).Set(v.Index(0))
+			}
+		}
+		v.Set(ns)
+	case kMap:
+		var proto reflect.Value
+		elemSize := 8
+		if v.Len() > 0 {
+			proto = v.MapIndex(v.MapKeys()[0])
+			elemSize += len(protocol.EncodeReflect(proto.Interface()))
+		} else {
+			proto = reflect.Zero(v.Type().Elem())
+		}
+		if n*elemSize > budget {
+			return false
+		}
+		nm := reflect.MakeMapWithSize(v.Type(), n)
+		for i := 0; i < n; i++ {
+			k := reflect.New(v.Type().Key()).Elem()
+			if !vSetKey(s.Key, k, i) {
+				return false
+			}
+			nm.SetMapIndex(k, proto)
+		}
+		if nm.Len() != n {
+			return false
+		}
+		v.Set(nm)
+	default:
+		return false
+	}
+	return true
+}
+
+func TestVerifC41(t *testing.T) {
+	_, roots, tmpls := vHarnessWalker(t)
+	r := vNewRand(0xC41)
+	rand.Seed(int64(r.U64() >> 1))
+	bases := vEnvInt("VERIF_C41_BASES", 2)
+	laxPer := vEnvInt("VERIF_C41_LAX", 4)
+	budget := vEnvInt("VERIF_C41_BUDGET", 150000)
+	out := vOpen("cases_c41.txt")
+	defer out.Close()
+	kinds := map[string]int{}
+	outcomes := map[string]int{}
+	lax := &vLax{r: r, uses: map[string]int{}}
+	total := 0
+	emitFor := func(n *vNamed, tmpl vCodec) func(kind string, b []byte) {
+		return func(kind string, b []byte) {
+			o := vDecode(tmpl, b)
+			switch {
+			case o.panic != "":
+				outcomes["panic"]++
+			case o.ok:
+				outcomes["ok"]++
+			default:
+				outcomes["err"]++
+			}
+			kinds[kind]++
+			total++
+			out.Line("(dec " + n.Name + " #" + vHex(b) + " " + vOutTerm(n, o) + " " + strings.ReplaceAll(kind, "-", "_") + ")")
+		}
+	}
+	for i, n := range roots {
+		emit := emitFor(n, tmpls[i])
+		for k := 0; k < bases; k++ {
+			var obj vCodec
+			var e []byte
+			for try := 0; try < 8; try++ { // prefer decodable instances as mutation bases
+				o, err := vRandomObj(tmpls[i], r)
+				if err != nil {
+					t.Fatal(err)
+				}
+				obj, e = o, protocol.Encode(o)
+				if vDecode(tmpls[i], e).ok {
+					break
+				}
+			}
+			emit("canonical", e)
+			vMutations(r, e, emit)
+			ov := reflect.ValueOf(obj).Elem()
+			for j := 0; j < laxPer; j++ {
+				lax.p = []int{5, 20, 50, 90}[j%4]
+				lax.b = nil
+				lax.val(n.Body, ov)
+				le := append([]byte(nil), lax.b...)
+				emit("lax", le)
+				if j == 0 {
+					vMutations(r, le, func(kind string, b []byte) {
+						if r.Intn(3) == 0 {
+							emit("lax+"+kind, b)
+						}
+					})
+				}
+			}
+			// declared bounds: exactly at the bound and one above, at up to 3 sites
+			var sites []vSite
+			vSites(n.Body, ov, &sites)
+			for j := 0; j < 3 && len(sites) > 0; j++ {
+				// work on a fresh copy of the instance so that sites do not interfere
+				cp := vFresh(tmpls[i])
+				if err := protocol.Decode(e, cp); err != nil {
+					break
+				}
+				var cs []vSite
+				vSites(n.Body, reflect.ValueOf(cp).Elem(), &cs)
+				if len(cs) == 0 {
+					break
+				}
+				st := cs[r.Intn(len(cs))]
+				for _, d := range []int{0, 1} {
+					if vResize(st, int(st.s.Bound)+d, budget) {
+						emit([]string{"at-bound", "over-bound"}[d], protocol.Encode(cp))
+					}
+				}
+			}
+		}
+	}
+	// random byte strings
+	for i, n := range roots {
+		emit := emitFor(n, tmpls[i])
+		for k := 0; k < 6; k++ {
+			b := r.Bytes(1 + r.Intn(40))
+			if k%2 == 0 {
+				b[0] = 0x80 | byte(r.Intn(16))
+			}
+			emit("random", b)
+		}
+		emit("empty", nil)
+		emit("nil", []byte{0xc0})
+	}
+	// deep nesting through the recursive type SignedTxnWithAD -> EvalDelta -> []SignedTxnWithAD
+	for i, n := range roots {
+		emit := emitFor(n, tmpls[i])
+		switch n.Name {
+		case "transactions.SignedTxnWithAD", "transactions.EvalDelta", "transactions.ApplyData", "transactions.SignedTxnInBlock", "bookkeeping.Block":
+			depths := []int{1, 2, 10, 60, 100, 120, 124, 125, 126, 127, 128, 129, 130, 140, 200, 400}
+			if vTier() == "thorough" {
+				for d := 110; d <= 135; d++ {
+					depths = append(depths, d)
+				}
+				depths = append(depths, 1000, 5000)
+			}
+			for _, d := range depths {
+				inner := vNested(d)
+				var obj vCodec
+				switch n.Name {
+				case "transactions.SignedTxnWithAD":
+					obj = &inner
+				case "transactions.EvalDelta":
+					obj = &inner.ApplyData.EvalDelta
+				case "transactions.ApplyData":
+					obj = &inner.ApplyData
+				case "transactions.SignedTxnInBlock":
+					obj = &transactions.SignedTxnInBlock{SignedTxnWithAD: inner}
+				case "bookkeeping.Block":
+					obj = &bookkeeping.Block{Payset: transactions.Payset{transactions.SignedTxnInBlock{SignedTxnWithAD: inner}}}
+				}
+				emit("deep-nesting", protocol.Encode(obj))
+			}
+			// raw nesting of array / map headers
+			for _, d := range []int{50, 300, 3000} {
+				emit("deep-raw", bytes.Repeat([]byte{0x91}, d))
+				emit("deep-raw", bytes.Repeat([]byte{0x81, 0xa2, 'd', 't'}, d))
+			}
+		}
+	}
+	// a struct map key given twice: the second map is merged into the first (go-codec compatible
+	// behaviour of the generated code); bookkeeping.BlockHeader.StateProofTracking has allocbound 1
+	for i, n := range roots {
+		if n.Name != "bookkeeping.BlockHeader" {
+			continue
+		}
+		emit := emitFor(n, tmpls[i])
+		var h1, h2 bookkeeping.BlockHeader
+		h1.StateProofTracking = map[protocol.StateProofType]bookkeeping.StateProofTrackingData{0: {StateProofNextRound: 7}}
+		h2.StateProofTracking = map[protocol.StateProofType]bookkeeping.StateProofTrackingData{1: {StateProofNextRound: 9}}
+		e1, e2 := protocol.Encode(&h1), protocol.Encode(&h2)
+		if len(e1) > 1 && len(e2) > 1 && e1[0] == 0x81 && e2[0] == 0x81 {
+			emit("dup-key-merge", append(append([]byte{0x82}, e1[1:]...), e2[1:]...))
+		}
+	}
+	st := map[string]interface{}{"kinds": kinds, "outcomes": outcomes, "total": total, "lax_choices": lax.uses}
+	vStats(st)
+	if outcomes["panic"] > 0 {
+		t.Logf("C41: %d inputs made a panic escape protocol.Decode", outcomes["panic"])
+	}
+}
+
+// d levels of inner transactions, each a minimal well-formed payment
+func vNested(d int) transactions.SignedTxnWithAD {
+	var cur transactions.SignedTxnWithAD
+	mk := func() transactions.SignedTxnWithAD {
+		var s transactions.SignedTxnWithAD
+		s.Txn.Type = protocol.PaymentTx
+		s.Txn.Sender = basics.Address{1}
+		return s
+	}
+	cur = mk()
+	for i := 1; i < d; i++ {
+		outer := mk()
+		outer.ApplyData.EvalDelta.InnerTxns = []transactions.SignedTxnWithAD{cur}
+		cur = outer
+	}
+	return cur
 }
